@@ -365,8 +365,10 @@ TEMPLATES = [
     "mutation M { a { ...F f { id } } set(v: 1) } fragment F on T { name }",
 ]
 
-DIRECTIVE_NAMES = ["stream", "defer", "skip", "include", "tag", "deprecated", "specifiedBy", "oneOf",
-                   "experimental_disableErrorPropagation", "nope"]
+DIRECTIVE_NAMES = ["stream", "defer", "skip", "include", "stream", "defer", "tag", "deprecated", "specifiedBy",
+                   "oneOf", "experimental_disableErrorPropagation", "nope"]
+OWN_ARGS = {"stream": ["if", "label", "initialCount"], "defer": ["if", "label"], "skip": ["if"], "include": ["if"],
+            "tag": ["n", "s"], "deprecated": ["reason"], "specifiedBy": ["url"]}
 DIRECTIVE_ARG_NAMES = ["if", "label", "initialCount", "n", "s", "reason", "url", "zz"]
 DIRECTIVE_ARG_VALUES = ["true", "false", '"x"', "1", "0", "-1", "1.5", "null", "$i", "$b", "$nope", "[true]",
                         '["a"]', "{a: 1}", "RED", '""', "2147483648"]
@@ -382,9 +384,11 @@ def _sprinkle(text, c):
         if not spots:
             break
         pos = c.choose(spots)
-        args = ", ".join(f"{c.choose(DIRECTIVE_ARG_NAMES)}: {c.choose(DIRECTIVE_ARG_VALUES)}"
-                         for _ in range(c.count(0, 2)))
-        d = " @" + c.choose(DIRECTIVE_NAMES) + (f"({args})" if args else "") + " "
+        name = c.choose(DIRECTIVE_NAMES)
+        own = OWN_ARGS.get(name)
+        args = ", ".join(f"{c.choose(own) if own and c.chance(215) else c.choose(DIRECTIVE_ARG_NAMES)}: "
+                         f"{c.choose(DIRECTIVE_ARG_VALUES)}" for _ in range(c.count(0, 2)))
+        d = " @" + name + (f"({args})" if args else "") + " "
         t = t[:pos] + d + t[pos:]
     return t
 
@@ -520,13 +524,13 @@ def eval_request(si, source, variables, opname, use_async):
 def _pipeline(nex):
     def fn(ctx, shard, nshards):
         def dec(c):
-            k = c.pick(4)
+            k = c.pick(5)
             if k == 0:
                 tree = g1.g_document(c, mode="exec")
                 source = g1.layout(g1.to_tokens(tree), c.ints(6))
             elif k == 1:
                 source = _mutate(c.choose(TEMPLATES), c)
-            elif k == 2:
+            elif k in (2, 4):
                 source = _sprinkle(c.choose(TEMPLATES), c)
             else:
                 source = c.choose(TEMPLATES)
